@@ -20,7 +20,9 @@
       below are proved.
 -/
 import SalsaVerif.Model.Intern
+import SalsaVerif.Model.Structs
 import SalsaVerif.Proofs.InternHist
+import SalsaVerif.Proofs.Structs
 
 namespace SalsaVerif.Props.C07
 open SalsaVerif.Model.Intern SalsaVerif.Proofs.Intern
@@ -112,5 +114,163 @@ example :
     (runSys (Sys.init (some 1)) [.intern 0 true 7, .newRev, .mca 0 0, .intern 0 true 8]).map
       (fun r => r.2.map (·.ret)) =
     some [.interned ⟨.new, 0, 0⟩, .unit, .verified false, .interned ⟨.new, 1, 0⟩] := by decide
+
+/-! ### tracked structs (Model/Structs.lean; `Structs.World` = struct table + creator contexts,
+    ops `spawn | begin q | new q cur dur changedAt ingredient fields | finish q cur |
+    discard q cur | read cur idx | addMemo idx payload`, see Props/C06) -/
+
+open SalsaVerif.Model SalsaVerif.Proofs in
+/-- Tracked structs: in every reachable world, an op changes the generation of an existing slot
+    only if it is a `Struct::new` — re-allocation of a freed slot from the free list, or an
+    `update` that found a different identity value under the same identity hash (collision) — and
+    then the slot is left with an empty memo table, exactly the new fields, stamped with the
+    current revision, at the old generation plus one. -/
+theorem c07_clear_on_bump_structs (hash : Nat → Nat) (ops : List Structs.Op) (w w' : Structs.World)
+    (op : Structs.Op) (hreach : Structs.runOps hash Structs.World.empty ops = .ok w)
+    (h : Structs.step hash w op = .ok w') (k : Nat) (v v' : Structs.Slot)
+    (hv : w.st.slots[k]? = some v) (hv' : w'.st.slots[k]? = some v') (hgen : v'.gen ≠ v.gen) :
+    ∃ q cur dur ca g fields, op = .new q cur dur ca g fields ∧ v'.memos = [] ∧
+      v'.fields = fields ∧ v'.updatedAt = some cur ∧ v'.gen = v.gen + 1 := by
+  obtain ⟨q, cur, dur, ca, g, fields, hop, h1, h2, h3, h4⟩ :=
+    Structs.c07s_clear_on_bump_step h hv hv' hgen
+  exact ⟨q, cur, dur, ca, g, fields, hop, h1, h2, h3,
+    h4 (Structs.runOps_inv Structs.winv_empty hreach)⟩
+
+open SalsaVerif.Model in
+/-- free-list reuse (struct dropped in revision 2, slot re-allocated in revision 3) and identity
+    collision (identity values 1 and 11 under `hash = · % 10`): generation 1, old memo gone. -/
+example :
+    (Structs.runOps (fun x => x % 10) Structs.World.empty
+      [.spawn, .begin 0, .new 0 1 0 1 7 ⟨1, [5]⟩, .addMemo 0 41, .finish 0 1, .begin 0,
+       .finish 0 2, .begin 0, .new 0 3 0 3 7 ⟨2, [6]⟩]).toOption.map
+      (fun w => w.st.slots.map (fun v => (v.gen, v.fields, v.memos))) =
+      some [(1, ⟨2, [6]⟩, [])] ∧
+    (Structs.runOps (fun x => x % 10) Structs.World.empty
+      [.spawn, .begin 0, .new 0 1 0 1 7 ⟨1, [5]⟩, .addMemo 0 41, .finish 0 1, .begin 0,
+       .new 0 2 0 2 7 ⟨11, [5]⟩]).toOption.map
+      (fun w => w.st.slots.map (fun v => (v.gen, v.fields, v.memos))) =
+      some [(1, ⟨11, [5]⟩, [])] := by decide
+
+/-- `c07_clear_on_bump`: every step that increments a slot's generation — free-list reuse,
+    identity collision (tracked structs), interned reuse — leaves the memo table empty and
+    replaces the fields.  (Conjunction of the two theorems above, for reference by name.) -/
+theorem c07_clear_on_bump :
+    (∀ (hash : Nat → Nat) (ops : List SalsaVerif.Model.Structs.Op)
+        (w w' : SalsaVerif.Model.Structs.World) (op : SalsaVerif.Model.Structs.Op),
+      SalsaVerif.Model.Structs.runOps hash SalsaVerif.Model.Structs.World.empty ops = .ok w →
+      SalsaVerif.Model.Structs.step hash w op = .ok w' →
+      ∀ (k : Nat) (v v' : SalsaVerif.Model.Structs.Slot), w.st.slots[k]? = some v →
+        w'.st.slots[k]? = some v' → v'.gen ≠ v.gen →
+        ∃ q cur dur ca g fields, op = .new q cur dur ca g fields ∧ v'.memos = [] ∧
+          v'.fields = fields ∧ v'.updatedAt = some cur ∧ v'.gen = v.gen + 1) ∧
+    (∀ (rev : Option Nat), rev ≠ some 0 → ∀ (s s' : Sys), Reachable rev s →
+      ∀ (op : Op) (r : Ret) (i : Nat) (v v' : Slot), s.it.shard.slot? i = some v →
+        stepSys s op = some (s', r) → s'.it.shard.slot? i = some v' →
+        v'.generation ≠ v.generation →
+        v'.generation = v.generation + 1 ∧ v'.memos = [] ∧
+          ∃ d inq x, op = .intern d inq x ∧ r = .interned ⟨.reuse, i, v.generation + 1⟩ ∧
+            v'.fields = x ∧ x ≠ v.fields) := by
+  refine ⟨fun hash ops w w' op hreach h k v v' hv hv' hgen =>
+    c07_clear_on_bump_structs hash ops w w' op hreach h k v v' hv hv' hgen, ?_⟩
+  intro rev hrev s s' hr op r i v v' hv h hv' hgen
+  obtain ⟨u, hu, hcase⟩ := c07_clear_on_bump_interned rev hrev s s' hr op r i v hv h
+  rw [hv'] at hu
+  injection hu with hu
+  subst hu
+  rcases hcase with ⟨hg, _⟩ | hc
+  · exact absurd hg hgen
+  · exact hc
+
+open SalsaVerif.Model SalsaVerif.Proofs in
+/-- Tracked structs: in every reachable world every memo stored in a slot was inserted under the
+    slot's current generation, and that generation is the generation of every live handle (id)
+    a creator holds for the slot. -/
+theorem c07_memo_gen_structs (hash : Nat → Nat) (ops : List Structs.Op) (w : Structs.World)
+    (hreach : Structs.runOps hash Structs.World.empty ops = .ok w) :
+    (∀ (k : Nat) (v : Structs.Slot), w.st.slots[k]? = some v →
+      ∀ m : Structs.Memo, m ∈ v.memos → m.gen = v.gen) ∧
+    (∀ c ∈ w.ctxs, ∀ id ∈ Structs.ctxIds c,
+      ∃ v, w.st.slots[id.idx]? = some v ∧ v.updatedAt ≠ none ∧ v.gen = id.gen) :=
+  ⟨Structs.c07s_memo_gen hreach, fun _ hc _ hid => Structs.c07s_handle_gen hreach hc hid⟩
+
+open SalsaVerif.Model in
+example :
+    (Structs.runOps (fun x => x % 10) Structs.World.empty
+      [.spawn, .begin 0, .new 0 1 0 1 7 ⟨1, [5]⟩, .addMemo 0 41, .finish 0 1, .begin 0,
+       .finish 0 2, .begin 0, .new 0 3 0 3 7 ⟨2, [6]⟩, .addMemo 0 42]).toOption.map
+      (fun w => w.st.slots.map (fun v => (v.gen, v.memos))) = some [(1, [⟨42, 1⟩])] := by decide
+
+/-- `c07_memo_gen`: every memo stored in a slot (tracked struct or interned value) was inserted
+    under the slot's current generation. -/
+theorem c07_memo_gen :
+    (∀ (hash : Nat → Nat) (ops : List SalsaVerif.Model.Structs.Op)
+        (w : SalsaVerif.Model.Structs.World),
+      SalsaVerif.Model.Structs.runOps hash SalsaVerif.Model.Structs.World.empty ops = .ok w →
+      ∀ (k : Nat) (v : SalsaVerif.Model.Structs.Slot), w.st.slots[k]? = some v →
+        ∀ m : SalsaVerif.Model.Structs.Memo, m ∈ v.memos → m.gen = v.gen) ∧
+    (∀ (rev : Option Nat), rev ≠ some 0 → ∀ (s : Sys), Reachable rev s →
+      ∀ (i : Nat) (v : Slot), s.it.shard.slot? i = some v → ∀ m ∈ v.memos, m = v.generation) :=
+  ⟨fun hash ops w h => (c07_memo_gen_structs hash ops w h).1,
+   fun rev hrev s hr i v hv => c07_memo_gen_interned rev hrev s hr i v hv⟩
+
+open SalsaVerif.Model SalsaVerif.Proofs in
+/-- A tracked struct created, updated or read in revision `r` (`updated_at = Some(r)`; both
+    `Struct::new` and a field read stamp the slot) is not deleted in `r`: `delete_entity` refuses
+    with the "read-locked" panic and the model returns no successor state; the slot is not on
+    the free list; and in a reachable world no `new`, `finish`, `discard` or `read` op running in
+    `r` changes the slot at all — in particular its generation is not bumped and its memos are
+    kept.  (In Rust the `updated_at.swap(None)` precedes the panic: what a *caught* delete panic
+    leaves behind is `deleteEntityUnwound` — the slot is write-locked for ever and leaked, never
+    re-issued.) -/
+theorem c07_no_reuse_in_rev_structs (hash : Nat → Nat) (ops : List Structs.Op) (w : Structs.World)
+    (hreach : Structs.runOps hash Structs.World.empty ops = .ok w) (k r : Nat) (v : Structs.Slot)
+    (hv : w.st.slots[k]? = some v) (hu : v.updatedAt = some r) :
+    (∀ g gen, Structs.deleteEntity w.st r g ⟨k, gen⟩ = .error .deleteReadLocked) ∧
+    k ∉ Structs.freeIdxs w.st.free ∧
+    (∀ w', (∀ q dur ca g fields, Structs.step hash w (.new q r dur ca g fields) = .ok w' →
+        w'.st.slots[k]? = some v) ∧
+      (∀ q, Structs.step hash w (.finish q r) = .ok w' → w'.st.slots[k]? = some v) ∧
+      (∀ q, Structs.step hash w (.discard q r) = .ok w' → w'.st.slots[k]? = some v) ∧
+      (∀ idx, Structs.step hash w (.read r idx) = .ok w' → w'.st.slots[k]? = some v)) ∧
+    (∀ (s1 : Structs.State) (cur idx : Nat), Structs.readField w.st cur idx = .ok s1 →
+      ∃ u, s1.slots[idx]? = some u ∧ u.updatedAt = some cur) := by
+  have hI := Structs.runOps_inv Structs.winv_empty hreach
+  refine ⟨fun g gen => Structs.c07s_no_delete_in_rev (id := ⟨k, gen⟩) hv hu, ?_, ?_, ?_⟩
+  · exact Structs.c07s_stamped_not_free hI.freeOK hv hu
+  · intro w'
+    exact Structs.c07s_frozen_step hI hv hu
+  · intro s1 cur idx h
+    exact Structs.c07s_read_stamps h
+
+open SalsaVerif.Model in
+/-- the struct is read in revision 2; a re-execution in revision 2 that does not re-create it
+    makes `finish` (diff_outputs → delete_entity) panic instead of freeing the slot. -/
+example :
+    Structs.runOps (fun x => x % 10) Structs.World.empty
+      [.spawn, .begin 0, .new 0 1 0 1 7 ⟨1, [5]⟩, .finish 0 1, .read 2 0, .begin 0, .finish 0 2]
+      = .error .deleteReadLocked ∧
+    (Structs.runOps (fun x => x % 10) Structs.World.empty
+      [.spawn, .begin 0, .new 0 1 0 1 7 ⟨1, [5]⟩, .finish 0 1, .read 2 0]).toOption.map
+      (fun w => w.st.slots.map (fun v => v.updatedAt)) = some [some 2] := ⟨rfl, by decide⟩
+
+/-- `c07_no_reuse_in_rev`: a struct read or created in revision `r` is not deleted in `r`, and an
+    interned value touched in `r` is not reused in `r`. -/
+theorem c07_no_reuse_in_rev :
+    (∀ (hash : Nat → Nat) (ops : List SalsaVerif.Model.Structs.Op)
+        (w : SalsaVerif.Model.Structs.World),
+      SalsaVerif.Model.Structs.runOps hash SalsaVerif.Model.Structs.World.empty ops = .ok w →
+      ∀ (k r : Nat) (v : SalsaVerif.Model.Structs.Slot), w.st.slots[k]? = some v →
+        v.updatedAt = some r →
+        ∀ g gen, SalsaVerif.Model.Structs.deleteEntity w.st r g ⟨k, gen⟩ =
+          .error .deleteReadLocked) ∧
+    (∀ (rev : Option Nat), rev ≠ some 0 → ∀ (s s' : Sys), Reachable rev s →
+      ∀ (i : Nat) (v : Slot), s.it.shard.slot? i = some v → s.cur ≤ v.lastInternedAt →
+      ∀ (ops : List Op) (log : List Ev), (∀ op ∈ ops, op ≠ .newRev) →
+        runSys s ops = some (s', log) →
+        ∃ v', s'.it.shard.slot? i = some v' ∧ v'.fields = v.fields ∧
+          v'.generation = v.generation) :=
+  ⟨fun hash ops w h k r v hv hu => (c07_no_reuse_in_rev_structs hash ops w h k r v hv hu).1,
+   fun rev hrev s s' hr i v hv ht ops log hops h =>
+     (c07_no_reuse_in_rev_interned rev hrev s s' hr i v hv ht ops log hops h).2⟩
 
 end SalsaVerif.Props.C07
